@@ -122,23 +122,14 @@ impl Matcher {
                         return None;
                     }
                 }
-                Some(1) => {
+                // the needle starts with a non-letter: search for that byte and compare
+                // the rest case insensitively
+                Some(_) => {
                     (max_score, max_pos) = self.substring_match_ascii_with_prefilter(
                         haystack,
                         needle,
                         1,
                         Memchr::new(needle[0], &haystack[..haystack.len() - needle.len() + 1]),
-                    );
-                    if max_score == 0 {
-                        return None;
-                    }
-                }
-                Some(len) => {
-                    (max_score, max_pos) = self.substring_match_ascii_with_prefilter(
-                        haystack,
-                        needle,
-                        1,
-                        memmem::find_iter(&haystack[..haystack.len() - needle.len() + len], needle),
                     );
                     if max_score == 0 {
                         return None;
